@@ -269,6 +269,8 @@ def seeded_cases(rng, n):
             ka, kb = rng.choice(PAIRS)
             wa = rng.choice(WIDTHS)
             wb = rng.choice(WIDTHS) if rng.random() < 0.7 else wa
+            if ka == "py" and kb == "py" and op not in ("truncdiv", "rem"):
+                continue      # plain Python
             a = operand(rng, ka, wa)
             b = operand(rng, kb, wb if kb in ("u", "s", "bv") else wa)
             if op in ("lshift", "rshift"):
@@ -456,6 +458,10 @@ def run(ck: common.Check, replay=None):
         "and/or/xor on Integer, unary minus on Unsigned, integer overflow, division by zero of Integer) has nothing to be "
         "compared with: counted under coverage.fold_defined_runtime_error, not a violation of C09 (C02/C06 own the emitted text)",
     ]
+    ck.assumptions.append(
+        "(c) end to end: sampled operators + - * << >> & | ^ @ == < >= on Unsigned / Signed / BitVector ports of width <= 13; "
+        "division operators are left out there (the port design divides by the power-up value 0 before the first input "
+        "is applied, which Vhdl.Sem reports as an error); variants rejected at compile time are counted, not compared")
     if replay is not None:
         cases = [replay["case"]] if "case" in replay else []
         exh = 0
@@ -540,7 +546,138 @@ def run(ck: common.Check, replay=None):
                          "Models/Ops.v (%s) predicts %s, the real method gives %s; the folded result still equals the "
                          "run-time value on all %d cases of this class (model out of date)" % (MODEL, o, r, len(mgroups[k])),
                          {"case": c, "python_result": r, "model": o, "python": one_liner(c)}, no_input=True)
+    if replay is None or replay.get("e2e"):
+        run_e2e(ck, 60 if quick else 400)
     for i in unmodelled[:5]:
         ck.violation({"op": kinds(cases[i])[0], "lhs": kinds(cases[i])[1], "rhs": kinds(cases[i])[2], "class": "malformed result"},
                      "the operation returned an object that is neither two-valued nor uninitialised: %s" % results[i],
                      {"case": cases[i], "python_result": results[i], "python": one_liner(cases[i])})
+
+
+# ----------------------------------------------------------------------------
+# (c) end to end: the same design with operands on input ports and with constant operands
+# ----------------------------------------------------------------------------
+
+E2E_SRC = """import cohdl
+from cohdl import Bit, Port, Unsigned, Signed, BitVector, Integer, op
+from cohdl import std
+
+class W(cohdl.Entity):
+    clk = Port.input(Bit)
+    a = Port.input({ta})
+    b = Port.input({tb})
+    o = Port.output({tr})
+
+    def architecture(self):
+        @std.concurrent
+        def logic():
+            self.o <<= {expr}
+"""
+
+E2E_OPS = ["add", "sub", "mul", "lshift", "rshift", "and", "or", "xor", "concat", "eq", "lt", "ge"]
+
+
+def ty_src(kind, w):
+    return {"u": "Unsigned[%d]" % w, "s": "Signed[%d]" % w, "bv": "BitVector[%d]" % w, "bit": "Bit", "bool": "bool"}[kind]
+
+
+def expr_src(op, x, y):
+    if op in PY_SYM:
+        return "%s %s %s" % (x, PY_SYM[op], y)
+    return "op.%s(%s, %s)" % (op, x, y)
+
+
+def vhdl_val(d):
+    k = d[0]
+    if k == "u":
+        return "(VV KUns %d %d)" % (d[1], d[2])
+    if k == "s":
+        return "(VV KSgn %d %d)" % (d[1], d[2] % (1 << d[1]))
+    if k == "bv":
+        return "(VV KSlv %d %d)" % (d[1], d[2])
+    return "(VL %s)" % ("true" if d[1] else "false")
+
+
+def e2e_cases(rng, n):
+    out = []
+    tries = 0
+    while len(out) < n and tries < 50 * n:
+        tries += 1
+        op = E2E_OPS[len(out) % len(E2E_OPS)]
+        kind = rng.choice(["u", "s"]) if op not in ("and", "or", "xor", "concat", "eq") else rng.choice(["u", "s", "bv"])
+        wa = rng.choice([1, 2, 3, 4, 5, 8, 13])
+        wb = rng.choice([wa, wa, rng.choice([1, 2, 3, 4, 5, 8])]) if op not in ("and", "or", "xor", "eq") else wa
+        if op in ("lt", "ge") and kind == "bv":
+            continue
+        a = [kind, wa, vec_value(rng, kind, wa)]
+        kb = "u" if op in ("lshift", "rshift") else kind
+        if op in ("lshift", "rshift"):
+            wb = rng.choice([1, 2, 3])
+        b = [kb, wb, vec_value(rng, kb, wb)]
+        out.append([op, a, b])
+    return out
+
+
+def run_e2e(ck, n):
+    import explore as X
+    import vhdl_reader as R
+    cases = e2e_cases(ck.rng, n)
+    folded = run_worker_sharded(cases)
+    designs, meta = [], []
+    for i, (c, r) in enumerate(zip(cases, folded)):
+        op, a, b = c
+        if r[0] != "v" or r[1] == "py":
+            ck.hist("e2e", "fold not a value: " + r[0])
+            continue
+        tr = ty_src(r[1], r[2])
+        ta, tb = ty_src(a[0], a[1]), ty_src(b[0], b[1])
+        designs.append({"name": "c09_p%d" % i, "entity": "W",
+                        "source": E2E_SRC.format(ta=ta, tb=tb, tr=tr, expr=expr_src(op, "self.a", "self.b"))})
+        designs.append({"name": "c09_k%d" % i, "entity": "W",
+                        "source": E2E_SRC.format(ta=ta, tb=tb, tr=tr, expr=expr_src(op, py_expr(a), py_expr(b)))})
+        meta.append((c, r))
+    res = X.compile_designs(ck, designs)
+    terms, info = [], []
+    for j, (c, r) in enumerate(meta):
+        rp, rk = res[2 * j], res[2 * j + 1]
+        if not (rp["ok"] and rk["ok"]):
+            # rejected at compile time in one of the variants: nothing to compare (the fold half is (a))
+            ck.hist("e2e", "rejected: ports=%s constants=%s" % (rp["ok"], rk["ok"]))
+            continue
+        try:
+            dp = R.design_to_coq(R.read_design(rp["vhdl"])[1])
+            dk = R.design_to_coq(R.read_design(rk["vhdl"])[1])
+        except R.Unparsed as ex:
+            ck.hist("e2e", "outside the reader's subset")
+            ck.obligation(False)
+            ck.violation({"op": c[0], "lhs": c[1][0], "rhs": c[2][0], "class": "e2e unparsed"},
+                         "emitted VHDL outside the reader's subset: %s" % str(ex)[:200],
+                         {"case": c, "sources": [designs[2 * j]["source"], designs[2 * j + 1]["source"]]}, no_input=True)
+            continue
+        inp = "[%s; %s]" % (vhdl_val(c[1]), vhdl_val(c[2]))
+        terms.append("(snd (vstep (%s) false (power_up (%s)) %s), snd (vstep (%s) false (power_up (%s)) %s))" % (
+            dp, dp, inp, dk, dk, inp))
+        info.append((j, c, r))
+    if not terms:
+        return
+    outs = common.coq_eval_terms(ck, "e2e", common.COQ_HEADER, terms, timeout=1200)
+    for (j, c, r), o in zip(info, outs):
+        ck.evaluations += 1
+        m = re.match(r"\((.*), (Ok .*|Err .*)\)$", o)
+        parts = None
+        if m:
+            # both components print identically when they are equal
+            half = len(o) // 2
+            parts = (o[1:half - 0].rstrip(", "), o[half + 1:-1].strip())
+        same = parts is not None and parts[0] == parts[1] and parts[0].startswith("Ok")
+        ck.obligation(same)
+        ck.hist("e2e", "agree" if same else "differ")
+        ck.nontrivial(["e2e", c[0], c[1][:2], c[2][:2]])
+        if not same:
+            ck.violation({"op": c[0], "lhs": c[1][0], "rhs": c[2][0], "class": "e2e"},
+                         "design with constant operands and design with the operands on input ports produce different "
+                         "outputs for %s: (ports, constants) = %s" % (one_liner(c).split("r = ")[1].split(";")[0], o[:300]),
+                         {"case": c, "folded": r, "outputs_ports_constants": o,
+                          "source_ports": designs[2 * j]["source"], "source_constants": designs[2 * j + 1]["source"],
+                          "python": one_liner(c)})
+    ck.cov["e2e_designs"] = len(designs)
